@@ -150,6 +150,22 @@ def gen(rng, tier):
             r = rand_bits(rng, (64 * nd) // n)
             for x in (r ** n - 1, r ** n):
                 emit(reqs, rng, x, n, signed_too=False)
+    # -- near-perfect powers of LARGE operands, every residue of the bit length mod 2n (a divide-and-conquer root that
+    #    splits the operand and corrects once is wrong for one residue class and only just below a perfect power;
+    #    C11-v1: sqrt above 16384 bits, bit length = 2 mod 4): x = (a·2^k)^n − d, d = 0, 1, 2, and (a·2^k)^n + small,
+    #    at 1030 … 16500 bits (quick: square roots at four sizes, one cube root)
+    sizes = [(1030, 2), (4100, 2), (16390, 2), (16500, 2), (9000, 3)] + ([(8200, 2), (20000, 2), (33000, 2), (16400, 3), (16400, 4), (5000, 5)] if thorough else [])
+    for tb, n in sizes:
+        for res in range(2 * n):
+            bits = tb + res
+            rb = -(-bits // n)                     # the root has about bits/n bits
+            j = rng.randrange(2, 30)
+            a = rng.randrange((1 << j) * 5 // 7, 1 << (j + 1)) | 1
+            k = max(0, rb - a.bit_length())
+            r = a << k
+            p = r ** n
+            for x in ((p - 1, p) if not thorough else (p - 2, p - 1, p, p + 1)):
+                emit(reqs, rng, x, n, signed_too=False)
     reqs += inherent_methods(rng, thorough)
     return reqs
 
